@@ -332,6 +332,15 @@ def run(facts, rep, tier, ctx):
         c09.relative_join_rules(facts, rep, ws, rule="R01.5j")
     except ImportError:
         rep.note("adapter rules (C07/C09) not available yet")
+    # R01.7 every way of constructing an in-memory filesystem yields the abstract tree's starting point: an existing, empty root
+    # directory (a derived Default builds an empty map: nothing can be created below a root that does not exist)
+    from . import c03 as _c03
+    _c03.root_rules(facts, rep, "R01.7")
+    # R01.4e "a target that is missing from an existing directory is reported as not-found" on the physical backends rests on
+    # the one normalisation of io NotFound in error.rs: io errors enter a VfsError only through it (shared with C12 R12.3a)
+    from . import c12 as _c12
+    from .c10 import _Prefixed as _Pfx
+    _c12.run_error_rs(facts, _Pfx(rep, "R01.4e"))
     # the async port: its path type, memory/physical backends and adapters are separate copies of the same contracts
     wa = World(facts, True)
     rep.ob("R01.A", "async_vfs", "async world present", wa.present(), "", "")
